@@ -30,6 +30,7 @@ PROGRAMS = {
     "P2": ["build", "render", "render"],
     "P3": ["build", "edit", "where", "render"],
     "P4": ["cli_render"],
+    "P5": ["build", "render", "edit", "where", "render"],  # reference runs only: rendering before an edit must not matter
 }
 
 
@@ -149,11 +150,13 @@ def client_build(c, mat):
     if c == "F":
         return Network(
             [
-                Reaction(["CO"], ["#CO"], -1.0, -1.0, 1.0, 0.0, 0.0, ReactionType.GRAIN_FREEZE, 1),
-                Reaction(["#CO"], ["CO"], -1.0, -1.0, 1.0, 0.0, 0.0, ReactionType.GRAIN_DESORB_THERMAL, 2),
-                Reaction(["H", "H"], ["H2"], -1.0, -1.0, 1e-17, 0.0, 0.0, ReactionType.GAS_TWOBODY, 3),
+                # no index information: rendering numbers the reactions itself; the rate modifier addresses the third one
+                Reaction(["CO"], ["#CO"], -1.0, -1.0, 1.0, 0.0, 0.0, ReactionType.GRAIN_FREEZE),
+                Reaction(["#CO"], ["CO"], -1.0, -1.0, 1.0, 0.0, 0.0, ReactionType.GRAIN_DESORB_THERMAL),
+                Reaction(["H", "H"], ["H2"], -1.0, -1.0, 1e-17, 0.0, 0.0, ReactionType.GAS_TWOBODY),
             ],
             grain_model="hh93",
+            rate_modifier={2: "3e-17 * sqrt(Tgas / 300.0)"},
         )
     raise HarnessError(c)
 
@@ -235,8 +238,9 @@ def run_schedule(arg):
         with quiet():
             mat = materials(work / "mat")
             nets = {}
-            for ci, stepname in schedule:
+            for pos, (ci, stepname) in enumerate(schedule):
                 c = progs[ci][0]
+                edited = "edit" in [s_ for (cj, s_) in schedule[:pos] if cj == ci]
                 try:
                     if stepname == "build":
                         nets[ci] = client_build(c, mat)
@@ -246,13 +250,12 @@ def run_schedule(arg):
                         nets[ci].where_species("H")
                     elif stepname == "render":
                         gl.add(globals_snapshot())
-                        edited = "edit" in [s for (cj, s) in schedule[: schedule.index((ci, stepname))] if cj == ci]
-                        obs.append((c, "edited" if "edit" in PROGRAMS[progs[ci][1]] else "plain", do_render(c, nets[ci], work)))
+                        obs.append((c, "edited" if edited else "plain", do_render(c, nets[ci], work)))
                     elif stepname == "cli_render":
                         gl.add(globals_snapshot())
                         obs.append((c, "cli", do_cli_render(c, mat, work)))
                 except Exception as e:
-                    obs.append((c, "edited" if "edit" in PROGRAMS[progs[ci][1]] else ("cli" if stepname == "cli_render" else "plain"), f"EXC@{stepname}:{type(e).__name__}:{str(e)[:120]}"))
+                    obs.append((c, "cli" if stepname == "cli_render" else "edited" if (edited or stepname == "edit") else "plain", f"EXC@{stepname}:{type(e).__name__}:{str(e)[:120]}"))
                     break
     finally:
         shutil.rmtree(work, ignore_errors=True)
@@ -366,6 +369,7 @@ def run(ctx):
         else:
             ref_scheds.append(([(c, "P2")], [(0, "build"), (0, "render"), (0, "render")]))
             ref_scheds.append(([(c, "P3")], [(0, "build"), (0, "edit"), (0, "where"), (0, "render")]))
+            ref_scheds.append(([(c, "P5")], [(0, "build"), (0, "render"), (0, "edit"), (0, "where"), (0, "render")]))
     ref = {}
     nexec = 0
     for s in seeds:
